@@ -720,7 +720,9 @@ class Interp:
                 for ci, (s, so) in enumerate(comps):
                     seqs.append(z3.Concat(*[z3.Unit(i.terms()[ci]) for i in items]) if len(items) > 1
                                 else z3.Unit(items[0].terms()[ci]))
-                return VList(t0, seqs)
+                vl = VList(t0, seqs)
+                vl.display_items = items           # a literal [a, b]: may be stored where a pair / record is expected
+                return vl
             except OutOfSubset:
                 pass
         return VTuple(items)       # heterogeneous literal list: immutable view (mutation => oos)
@@ -1294,7 +1296,8 @@ class Interp:
         havocs, self.havoc_log = self.havoc_log, None
         result = None
         if c.result is not None:
-            result = ctx.fresh_of('ret_' + c.name.split('.')[-1], c.result)
+            rty = c.result(cx) if callable(c.result) and not isinstance(c.result, Ty) else c.result     # result type may depend on the call
+            result = ctx.fresh_of('ret_' + c.name.split('.')[-1], rty)
             result = ctx.load(result)
         else:
             result = VNone()
@@ -1392,11 +1395,19 @@ class Interp:
         if isinstance(ty, _v._TInt) and isinstance(v, (VInt, VBool)):
             return v if isinstance(v, VInt) else VInt(z3.If(v.term, 1, 0))
         if isinstance(ty, _v._TStr) and isinstance(v, VStr): return v
+        if isinstance(ty, _v._TStr) and isinstance(v, VDyn):
+            # a dynamically typed value handed to code that needs a str: anything else fails with TypeError there
+            if not self.ctx.branch(v.kind == 2):
+                self.raise_py(TypeError)
+            return VStr(v.s)
         if isinstance(ty, _v._TBytes) and isinstance(v, VBytes): return v
         if isinstance(ty, _v._TChunks) and isinstance(v, VChunks): return v
         if isinstance(ty, _v._TChunks) and isinstance(v, VEmptyList): return VChunks(z3.StringVal(''))
         if isinstance(ty, Ref) and isinstance(v, VRef): return v
         if isinstance(ty, ListT) and isinstance(v, VList): return v
+        if isinstance(ty, ListT) and isinstance(v, VTuple):
+            # a display with concretely many elements passed where a list is expected
+            return VList(ty.t, self.ctx.store_terms(v, ty))
         if isinstance(ty, DictT) and isinstance(v, VDict): return v
         if isinstance(ty, TupleT) and isinstance(v, VTuple): return v
         if isinstance(ty, _v._TNone) and isinstance(v, VNone): return v
